@@ -188,13 +188,15 @@ pub fn gen_fix_program(rng: &mut Rng) -> (String, String) {
       // with and without imports before the use; what follows the last import on its line may be a construct that
       // continues on the next line (block comment, template, a statement broken over lines)
       let use_ = format!("const e = process.{}; process.exit(1);", ["env.X", "argv", "cwd()"][rng.below(3)]);
-      let src = match rng.below(9) {
+      let src = match rng.below(11) {
         0 => use_,
         1 => format!("import a from \"b\";\n{}", use_),
         2 => format!("import a from \"b\"; /* the entry point\n of the tool */\n{}", use_),
         3 => format!("import a from \"b\"; const usage = `\n ${{a}} ${{process.argv[1]}}\n`;"),
         4 => format!("import a from \"b\"; // trailing\nimport c from \"d\"; f(\n  process.argv,\n);"),
         5 => format!("import a from \"b\"; const s = \"x\\\n y\"; {}", use_),
+        8 => format!("{}\nimport late from \"./late.ts\";\nf(late);", use_),
+        9 => format!("const b = Buffer.from(\"x\");\n{}\nimport late from \"./late.ts\";\nf(late, b);", use_),
         6 => format!("import z from \"z\";\ndeclare module \"x\" {{ import y from \"y\"; }}\n{}", use_),
         7 => format!("declare module \"x\" {{ import y from \"y\"; }}\n{}", use_),
         _ => format!("import {{\n  a,\n}} from \"b\"; let v =\n  process.env;"),
@@ -302,6 +304,8 @@ pub fn run(args: &Args) {
     } else if case_no < args.count * 2 / 3 {
       let s = &corpus[(case_no * 7919 + (args.seed as usize)) % corpus.len()];
       (s.rule.clone(), s.src.clone())
+    } else if case_no % 7 == 3 {
+      gen_fix_program(&mut crng)
     } else {
       gen_program(&mut crng, &corpus)
     };
